@@ -9,6 +9,9 @@ import time
 import builtins
 import numpy as real_np
 import z3
+import sys as _sys
+if hasattr(_sys, 'set_int_max_str_digits'):
+    _sys.set_int_max_str_digits(0)      # solver models may carry rationals with thousands of digits
 
 FORK_TIMEOUT_MS = 2000
 PROVE_TIMEOUT_MS = 60000
